@@ -88,6 +88,9 @@ pub struct Script {
     pub payload: Vec<u64>,
     pub call: Call,
     pub plan: Plan,
+    /// payload of a warm-up call (another value of the same variant, or the same value, formatted and thrown away
+    /// before the checked call): whatever an earlier call leaves behind must not reach the next one. Empty = none.
+    pub warm: Vec<u64>,
 }
 
 impl Script {
@@ -102,9 +105,12 @@ impl Script {
             },
             self.plan.line(),
         ]
+        .into_iter()
+        .chain(if self.warm.is_empty() { None } else { Some(format!("warmup {}", self.warm.iter().map(|p| p.to_string()).collect::<Vec<_>>().join(" "))) })
+        .collect()
     }
     pub fn parse(lines: &[String]) -> Result<Script, String> {
-        let mut s = Script { variant: 0, payload: vec![], call: Call::Spec(0, 0, 0), plan: Plan::None };
+        let mut s = Script { variant: 0, payload: vec![], call: Call::Spec(0, 0, 0), plan: Plan::None, warm: vec![] };
         for l in lines {
             let p: Vec<&str> = l.split_whitespace().collect();
             let num = |i: usize| -> Result<u64, String> { p.get(i).ok_or(format!("missing arg in {:?}", l))?.parse::<u64>().map_err(|e| format!("{:?}: {}", l, e)) };
@@ -119,6 +125,7 @@ impl Script {
                     }
                 }
                 Some("plan") => s.plan = Plan::parse(p.get(1).copied().unwrap_or("none"), num(2)? as u32)?,
+                Some("warmup") => s.warm = p[1..].iter().map(|x| x.parse::<u64>().map_err(|e| e.to_string())).collect::<Result<_, _>>()?,
                 o => return Err(format!("bad line {:?}", o)),
             }
         }
@@ -136,6 +143,7 @@ pub const NAMES: &[&str] = &[
     "probe_name_has_escaped_braces", "probe_name_multibyte", "probe_empty_name", "probe_plan_never_fired",
     "fault_field_display_err_fired", "probe_interpolated_variant_under_nontrivial_caller_spec",
     "probe_width_or_precision_taken_from_another_field", "probe_identifier_shared_with_a_styled_enum",
+    "probe_warm_up_call_with_another_value_first", "probe_warm_up_call_with_the_same_value_first", "probe_nested_display_of_the_same_enum",
 ];
 const R_FIXED_UNIT: usize = 0;
 const R_INTERP_TUPLE: usize = 3;
@@ -163,6 +171,9 @@ const F_FIELD_ERR: usize = 27;
 const P_UNDEFINED_SPEC: usize = 28;
 const P_WIDTH_ARG: usize = 29;
 const P_SHARED_IDENT: usize = 30;
+const P_WARM_OTHER: usize = 31;
+const P_WARM_SAME: usize = 32;
+const P_NESTED: usize = 33;
 
 pub struct Failure {
     pub oracle: &'static str,
@@ -189,6 +200,21 @@ pub fn exec(case: &Case, sc: &Script, mut stats: Option<&mut Stats>, keep_log: b
     info.trace.u(vi as u64);
     for p in &payload {
         info.trace.u(*p);
+    }
+    if !sc.warm.is_empty() {
+        let mut wp = sc.warm.clone();
+        wp.resize(v.nfields, 0);
+        for p in &wp {
+            info.trace.u(*p);
+        }
+        // the warm-up call: its result is not judged (the same value is judged by the runs that check it), a panic
+        // or an Err in it is not this run's business
+        let _ = catch(|| {
+            let w = (case.make)(vi, &wp);
+            let mut scratch = String::new();
+            let _ = fmt::Write::write_fmt(&mut scratch, format_args!("{}", w.display()));
+            let _ = fmt::Write::write_fmt(&mut scratch, format_args!("{:>7.3}", w.display()));
+        });
     }
     let arm = if v.fixed.is_some() { "fixed" } else { "interp" };
     let fclass = if sc.plan.is_none() { "nofault" } else { "fault" };
@@ -249,6 +275,12 @@ pub fn exec(case: &Case, sc: &Script, mut stats: Option<&mut Stats>, keep_log: b
         st.hit(k);
         if v.literal.map_or(false, |l| l.contains("$}") || l.contains("$.")) {
             st.hit(P_WIDTH_ARG);
+        }
+        if !sc.warm.is_empty() {
+            st.hit(if sc.warm == sc.payload { P_WARM_SAME } else { P_WARM_OTHER });
+        }
+        if matches!(v.ident, "Node" | "Deep" | "Twice") && case.desc.contains("Leaf[") {
+            st.hit(P_NESTED);
         }
         if matches!(v.ident, "raw__mode" | "_reserved" | "trailing_" | "snake_case_name" | "Http2" | "Sha256Sum" | "Ipv6Only") && case.desc.contains("serialize_all=None") {
             st.hit(P_SHARED_IDENT);
@@ -451,7 +483,17 @@ pub fn gen_script(rng: &mut Rng, case: &Case) -> Script {
     let faulty = !matches!(call, Call::ToString) && rng.chance(55, 100);
     let approx = v.fixed.map(|n| n.len()).unwrap_or(12) + if let Call::Spec(_, w, _) = &call { *w / 2 } else { 0 };
     let plan = Plan::gen(rng, faulty, approx);
-    Script { variant: vi, payload, call, plan }
+    // (drawn last, so that everything above is what it was before warm-up calls existed)
+    let warm = if v.nfields > 0 && rng.chance(30, 100) {
+        if rng.chance(50, 100) {
+            gen_payload(rng, v.nfields)
+        } else {
+            payload.clone()
+        }
+    } else {
+        vec![]
+    };
+    Script { variant: vi, payload, call, plan, warm }
 }
 
 fn minimise(case: &Case, sc: Script, sig: &str) -> Script {
@@ -471,6 +513,12 @@ fn minimise(case: &Case, sc: Script, sig: &str) -> Script {
             false
         }
     };
+    // without the warm-up call, if the violation does not need it
+    if !cur.warm.is_empty() {
+        let mut c = cur.clone();
+        c.warm = vec![];
+        try_set(&mut cur, c);
+    }
     for _ in 0..3 {
         // payload towards index 0
         for i in 0..cur.payload.len() {
